@@ -185,7 +185,9 @@ def linear(e: ast.expr) -> dict[str, int] | None:
     ``+``, ``-`` and unary minus into {atom: coefficient, "": constant}; None if not linear."""
     if isinstance(e, ast.Constant) and isinstance(e.value, int) and not isinstance(e.value, bool):
         return {"": e.value}
-    if isinstance(e, (ast.Name, ast.Call, ast.Attribute, ast.Subscript)):
+    if isinstance(e, ast.Await):
+        return linear(e.value)
+    if isinstance(e, (ast.Name, ast.Call, ast.Attribute, ast.Subscript, ast.Compare)):
         return {ast.unparse(e): 1}
     if isinstance(e, ast.UnaryOp) and isinstance(e.op, ast.USub):
         r = linear(e.operand)
